@@ -47,6 +47,9 @@ func (np *NatPlus) UnmarshalCBOR(data []byte) error {
 	if dto == nil {
 		return ErrIsNil.WithMessage("NatPlus data is nil")
 	}
+	if dto.NatPlus == nil {
+		return ErrIsNil.WithMessage("NatPlus")
+	}
 	if dto.NatPlus.IsZero() == ct.True {
 		return ErrOutOfRange.WithMessage("NatPlus must be greater than 0")
 	}
